@@ -353,6 +353,16 @@ def directed_cases():
         for op in DIRECTED_OPS:
             out.append({'cls': cls, 'max_size': 2, 'on_miss': False, 'prefill': [['a', 0], ['b', 1]],
                         'programs': [[op, ['set', 'c', 11]], [['set', 'd', 12]]]})
+        # a brand-new cache: the very first operations of two threads race (anything set up lazily on first use)
+        for ms in (1, 2):
+            for first_op in (['set', 'a', 1], ['setdefault', 'a', 1]):
+                out.append({'cls': cls, 'max_size': ms, 'on_miss': False, 'prefill': [], 'small': True,
+                            'programs': [[first_op], [['set', 'b', 2]]]})
+        # a lookup that misses and computes its value through on_miss, against a writer of the same key
+        for look in (['getitem', 'x'], ['get', 'x', None], ['setdefault', 'x', 7]):
+            for other in (['set', 'x', 5], ['getitem', 'x']):
+                out.append({'cls': cls, 'max_size': 2, 'on_miss': True, 'prefill': [['a', 0], ['b', 1]], 'small': True,
+                            'programs': [[look, ['getitem', 'a']], [other]]})
     return out
 
 
@@ -369,7 +379,7 @@ def explore_all_pairs(ctx, case, label):
         N = sc.events
         case['budget'] = 40 * N + 5000
         total = N * (N - 1) // 2
-        cap = 40000 if ctx.thorough else 300
+        cap = 40000 if ctx.thorough else (600 if case.get('small') else 300)
         if total <= cap:
             pairs = [(k1, k2) for k1 in range(1, N + 1) for k2 in range(k1 + 1, N + 1)]
             st.count('programs_with_exhaustive_double_preemption')
